@@ -104,7 +104,7 @@ def _ref_validators():
         if not v.startswith(("http://", "https://")):
             raise ValueError
     def is_int(v):
-        if not isinstance(v, int):
+        if not isinstance(v, int) or isinstance(v, bool):   # a JSON integer; true/false are not
             raise ValueError
     def is_bool(v):
         if not isinstance(v, bool):
